@@ -208,6 +208,22 @@ def prove_lemmas(ctx: Ctx, module: str, names: Optional[Sequence[str]] = None) -
         report_record(ctx, rec)
 
 
+def list_theory_obligations(ctx: Ctx) -> None:
+    """the inductive lemmas about filtered sequences the engine assumes (pyvc/listtheory.py): proved here, each run, by
+    explicit induction (base / step are separate queries); a lemma that does not go through leaves the proofs that use
+    it undecided.  The canary (a false variant) must stay unprovable."""
+    from pyvc import listtheory
+    for name, status, secs in listtheory.prove_lemmas():
+        ctx.obligation(f"list-theory/{name}", "discharged" if status == "discharged" else "undecided",
+                       backend="z3 (explicit induction: base and step)", seconds=secs,
+                       detail=None if status == "discharged" else f"solver answer: {status}")
+    t0 = time.time()
+    ok = listtheory.canary()
+    ctx.obligation("list-theory/canary-false-variant-is-not-provable", "discharged" if ok else "undecided",
+                   backend="z3", seconds=time.time() - t0,
+                   detail=None if ok else "the definitions of the filtered-sequence theory prove a false statement")
+
+
 def run_bounded(ctx: Ctx, prop: str) -> bool:
     """runs bounded/<prop>.py if it exists"""
     try:
